@@ -198,7 +198,8 @@ DOCTYPES = [
     'doc [\n<!ENTITY e "x">\n<!ELEMENT doc (#PCDATA)>\n]',
     "html\n",
 ]
-PI_NAMES = ["pi", "php", "target", "x-y", "Python", "pythonx"]
+PI_NAMES = ["pi", "php", "target", "x-y", "Python", "pythonx", "python-x",
+            "python.y", "xml-stylesheet", "xmlfoo", "xml-x"]
 
 
 @st.composite
